@@ -47,7 +47,7 @@ PROPS = {
             algo("AddSub.tla", "AddSub_q.cfg"), algo("AddSub.tla", "AddSub_cal_no_propagate.cfg", expect="violation"),
             algo("AddSub.tla", "AddSub_cal_no_push.cfg", expect="violation"), algo("AddSub.tla", "AddSub_cal_borrow_only.cfg", expect="violation"),
             algo("AddSub.tla", "AddSub_t1.cfg", workers=14, tiers=T), algo("AddSub.tla", "AddSub_t2.cfg", workers=14, heap="10g", tiers=T)],
-        "drivers": [drv("addsub", "debug"), drv("addsub", "release", tiers=T)],
+        "drivers": [drv("matrix", "debug", shards={"quick": 8, "thorough": 14}, env={"HARNESS_SAMPLE": "2"}, tiers=Q), drv("matrix", "debug", tiers=T), drv("addsub", "debug"), drv("addsub", "release", tiers=T)],
     },
     "C02": {
         "mc": L0_QUICK + L0_THOROUGH + [
@@ -55,14 +55,14 @@ PROPS = {
             algo("Mac3.tla", "Mac3_cal2.cfg", expect="violation"),
             algo("Mac3.tla", "Mac3_t1.cfg", workers=14, tiers=T), algo("Mac3.tla", "Mac3_t2.cfg", workers=14, heap="12g", tiers=T),
             algo("Mac3.tla", "Mac3_t3.cfg", workers=14, heap="12g", tiers=T)],
-        "drivers": [drv("mul", "debug"), drv("mul", "release", tiers=T)],
+        "drivers": [drv("matrix", "debug", shards={"quick": 8, "thorough": 14}, env={"HARNESS_SAMPLE": "2"}, tiers=Q), drv("matrix", "debug", tiers=T), drv("mul", "debug"), drv("mul", "release", tiers=T)],
     },
     "C03": {
         "mc": L0_QUICK + L0_THOROUGH + [
             algo("KnuthD.tla", "KnuthD_b4.cfg"), algo("KnuthD.tla", "KnuthD_b8s.cfg"),
             algo("KnuthD.tla", "KnuthD_b4_cal1.cfg", expect="violation"), algo("KnuthD.tla", "KnuthD_b4_cal2.cfg", expect="violation"),
             algo("KnuthD.tla", "KnuthD_b8.cfg", workers=14, heap="12g", tiers=T)],
-        "drivers": [drv("div", "debug"), drv("div", "release", tiers=T)],
+        "drivers": [drv("matrix", "debug", shards={"quick": 8, "thorough": 14}, env={"HARNESS_SAMPLE": "2"}, tiers=Q), drv("matrix", "debug", tiers=T), drv("div", "debug"), drv("div", "release", tiers=T)],
     },
     "C07": {
         "mc": L0_QUICK + L0_THOROUGH + [
@@ -70,7 +70,7 @@ PROPS = {
             algo("BitOps.tla", "BitOps_t.cfg", workers=14, tiers=T),
             algo("ShiftBits.tla", "ShiftBits_q.cfg"), algo("ShiftBits.tla", "ShiftBits_cal1.cfg", expect="violation"),
             algo("ShiftBits.tla", "ShiftBits_cal2.cfg", expect="violation"), algo("ShiftBits.tla", "ShiftBits_t.cfg", workers=14, tiers=T)],
-        "drivers": [drv("bits", "debug"), drv("bits", "release", tiers=T)],
+        "drivers": [drv("matrix", "debug", shards={"quick": 8, "thorough": 14}, env={"HARNESS_SAMPLE": "2"}, tiers=Q), drv("matrix", "debug", tiers=T), drv("bits", "debug"), drv("bits", "release", tiers=T)],
     },
     "C09": {
         "mc": L0_QUICK + L0_THOROUGH + [algo("SmallAlgos.tla", "SmallAlgos_q.cfg"), algo("SmallAlgos.tla", "SmallAlgos_cal_signed_no_sign_test.cfg", expect="violation")],
@@ -107,7 +107,7 @@ PROPS = {
     },
     "C13": {
         "mc": L0_QUICK + L0_THOROUGH + [algo("SmallAlgos.tla", "SmallAlgos_q.cfg"), algo("SmallAlgos.tla", "SmallAlgos_cal_gcd_max_shift.cfg", expect="violation")],
-        "drivers": [drv("gcd", "debug"), drv("gcd", "release", tiers=T)],
+        "drivers": [drv("matrix", "debug", shards={"quick": 8, "thorough": 14}, env={"HARNESS_SAMPLE": "2"}, tiers=Q), drv("matrix", "debug", tiers=T), drv("gcd", "debug"), drv("gcd", "release", tiers=T)],
     },
     "C19": {
         "mc": L0_QUICK + L0_THOROUGH,
@@ -123,7 +123,7 @@ PROPS = {
     },
     "C04": {
         "mc": L0_QUICK + L0_THOROUGH,
-        "drivers": [drv("history", "debug"), drv("history", "release", tiers=T),
+        "drivers": [drv("matrix", "debug", shards={"quick": 8, "thorough": 14}, env={"HARNESS_SAMPLE": "2"}, tiers=Q), drv("matrix", "debug", tiers=T), drv("history", "debug"), drv("history", "release", tiers=T),
                     drv("arb", "debug", features=["std", "rand", "serde", "quickcheck", "arbitrary"], shards={"quick": 4, "thorough": 8})],
         "owns_reasons": ("noncanon",),
     },
@@ -156,7 +156,7 @@ PROPS = {
     },
     "C10": {
         "mc": L0_QUICK + L0_THOROUGH,
-        "drivers": [drv("forms", "debug"), drv("forms", "release", tiers=T)],
+        "drivers": [drv("matrix", "debug"), drv("forms", "debug"), drv("forms", "release", tiers=T)],
     },
     "C16": {
         "mc": [],
@@ -218,46 +218,46 @@ MANIFEST_TEXT = {
     "C01": _t("Recorded add/sub calls (every operand form, length pairs 0..17/23 around the 5-digit block, carry/borrow chains, four sign pairs) are "
               "validated by TLC against NumTrace; the asm! blocks are extracted from the source and model-checked instruction by instruction "
               "(AsmBlock: every memory content for sizes 0..8 at base 2, Contract = exact partial sum/difference with returned carry); the Rust "
-              "wrapper code is transcribed (AddSub) and checked for all operands up to 7 digits with three calibration mutants.",
+              "wrapper code is transcribed (AddSub) and checked for all operands up to 7 digits with three calibration mutants. A cross-family driver applies every structured operand shape to every binary operation. NumMachine (the library as a register machine over TLC integers) supplies behaviours to execute on the code: random walks from TLC simulation and every single step from every small register file (exhaustive), compared register by register after each step.",
               "TLA+ trace validation (TLC) + TLC model checking of the extracted asm! program and of the AddSub transcription"),
     "C02": _t("Recorded products over every regime boundary (31..34, 63..66, 128/129, 256..258 digits; longer operand n, n+1, 1.25-2x, 2n+-1, 3n; "
               "all-ones, sparse, hierarchical zero/ones structure, squares, zero digits) are validated by TLC with an exact byte-level product; "
-              "the mac3 transcription (all four regimes, scaled thresholds) is model-checked on 175 k operand pairs with two calibration mutants."),
+              "the mac3 transcription (all four regimes, scaled thresholds) is model-checked on 175 k operand pairs with two calibration mutants. A cross-family driver applies every structured operand shape to every binary operation. NumMachine (the library as a register machine over TLC integers) supplies behaviours to execute on the code: random walks from TLC simulation and every single step from every small register file (exhaustive), compared register by register after each step."),
     "C03": _t("Recorded calls of every division API (26 forms x two types, both duplicated pre-check paths, landmark operands reaching a0==b0, "
               "refinement and add-back, every normalisation shift, zero divisors) are validated by TLC through the relational definition of each "
               "convention; KnuthD transcription model-checked on all operands (base 4 5/3 digits, base 8) with calibration mutants; NumMachine "
-              "behaviours replayed on the code."),
+              "behaviours replayed on the code. A cross-family driver applies every structured operand shape to every binary operation. NumMachine (the library as a register machine over TLC integers) supplies behaviours to execute on the code: random walks from TLC simulation and every single step from every small register file (exhaustive), compared register by register after each step."),
     "C04": _t("Histories of in-place operations on long-lived registers with pairwise Eq/Ord/Hash observations and decimal twins are validated by "
               "TLC (canonical form of every written register judged independently of its value); NumMachine behaviours (TLC simulation) are "
-              "replayed on the code with a canonical-form test after every step."),
+              "replayed on the code with a canonical-form test after every step. A cross-family driver applies every structured operand shape to every binary operation."),
     "C05": _t("Recorded modpow/modinv calls (odd and even moduli, top digit 1 / 2^63 / all ones, bases shorter/equal/longer/multiples of the modulus, "
               "zero windows, multi-digit exponents, all signs, +-1, zero modulus, negative exponent) are validated by TLC: every modular reduction "
-              "is re-checked from a quotient witness; Monty/plain_modpow transcription model-checked on 35 k triples with three calibration mutants."),
+              "is re-checked from a quotient witness; Monty/plain_modpow transcription model-checked on 35 k triples with three calibration mutants. NumMachine (the library as a register machine over TLC integers) supplies behaviours to execute on the code: random walks from TLC simulation and every single step from every small register file (exhaustive), compared register by register after each step."),
     "C06": _t("Recorded to_str_radix / formatter / to_radix / parse / from_radix calls (all radices 2..36 and 2..256, 63/64/65/130 digits, powers of "
               "the radix, up to 140 leading zeros, the parser language over a small alphabet exhaustively to length 3, formatter flag matrix) are "
-              "validated by TLC against Text.tla (unique digit string, accepted language, core::fmt padding); Radix transcription model-checked."),
+              "validated by TLC against Text.tla (unique digit string, accepted language, core::fmt padding); Radix transcription model-checked. NumMachine (the library as a register machine over TLC integers) supplies behaviours to execute on the code: random walks from TLC simulation and every single step from every small register file (exhaustive), compared register by register after each step."),
     "C07": _t("Recorded bit operations (nine sign pairs, powers of two and long zero/one runs, every shift type incl. negative and maximal amounts, "
               "bit indices around the lowest set bit and beyond the top) validated by TLC against two's-complement definitions; BitOps (nine "
-              "routines with running carries and debug assertions) and ShiftBits (shl2/shr2, rounding, set_negative_bit) model-checked."),
+              "routines with running carries and debug assertions) and ShiftBits (shl2/shr2, rounding, set_negative_bit) model-checked. A cross-family driver applies every structured operand shape to every binary operation. NumMachine (the library as a register machine over TLC integers) supplies behaviours to execute on the code: random walks from TLC simulation and every single step from every small register file (exhaustive), compared register by register after each step."),
     "C08": _t("Recorded primitive conversions (every type's MIN/MAX +-2, 2^64/2^128 +-2, by-value errors returning the original) and float "
               "conversions (tie / just-above / just-below patterns with the deciding bit 1..300 bits down, overflow edges, NaN/inf/subnormals) are "
-              "validated by TLC against Floats.tla (itself checked on a toy format); FloatPath model shows the window+sticky path equals RNE."),
+              "validated by TLC against Floats.tla (itself checked on a toy format); FloatPath model shows the window+sticky path equals RNE. NumMachine (the library as a register machine over TLC integers) supplies behaviours to execute on the code: random walks from TLC simulation and every single step from every small register file (exhaustive), compared register by register after each step."),
     "C09": _t("Recorded byte/word exports and imports (2^(8k-1)+-1, padding 0..9 bytes of 0x00/0xff, odd word counts) and iterator sessions are "
               "validated by TLC (iterator = deque); the U32Digits transcription refines the deque for every call history (DigitIter), and all "
-              "81 000 (810 000) TLC-generated call histories are executed on the real iterator."),
+              "81 000 (810 000) TLC-generated call histories are executed on the real iterator. NumMachine (the library as a register machine over TLC integers) supplies behaviours to execute on the code: random walks from TLC simulation and every single step from every small register file (exhaustive), compared register by register after each step."),
     "C10": _t("Every scalar operator form is called by name (5 operators x 10 forms x 12 scalar types x 2 big types, scalar %= big, Sum/Product, "
               "value/reference forms on structured operands) and validated by TLC with the rule of the canonical operation; NumMachine behaviours "
-              "with rotating forms replayed on the code."),
+              "with rotating forms replayed on the code. A cross-family driver applies every structured operand shape to every binary operation."),
     "C11": _t("Recorded sqrt/cbrt/nth_root calls (below 2^64, up to and beyond 2^1024, perfect powers +-1, n up to u32::MAX, negatives, n = 0) in "
               "the std and the no_std build are validated by TLC (r^n <= x < (r+1)^n); the fixpoint iteration is model-checked from every initial "
-              "guess (safety and termination) with two calibration mutants."),
+              "guess (safety and termination) with two calibration mutants. NumMachine (the library as a register machine over TLC integers) supplies behaviours to execute on the code: random walks from TLC simulation and every single step from every small register file (exhaustive), compared register by register after each step."),
     "C12": _t("Recorded pow calls (every exponent type and form, exponents 0..70/300 and bit patterns, astronomical exponents with bases 0, +-1, "
-              "BigUint exponents at the u64/u128 edges) validated by TLC; exponent loop and powsign transcription model-checked."),
+              "BigUint exponents at the u64/u128 edges) validated by TLC; exponent loop and powsign transcription model-checked. NumMachine (the library as a register machine over TLC integers) supplies behaviours to execute on the code: random walks from TLC simulation and every single step from every small register file (exhaustive), compared register by register after each step."),
     "C13": _t("Recorded gcd/lcm/extended_gcd/multiple-of/parity/inc/dec calls validated by TLC from certificates (cofactors and a Bezout pair) it "
-              "re-checks by multiplication; Stein transcription model-checked for all pairs <= 130; NumMachine behaviours replayed."),
+              "re-checks by multiplication; Stein transcription model-checked for all pairs <= 130; NumMachine behaviours replayed. A cross-family driver applies every structured operand shape to every binary operation. NumMachine (the library as a register machine over TLC integers) supplies behaviours to execute on the code: random walks from TLC simulation and every single step from every small register file (exhaustive), compared register by register after each step."),
     "C14": _t("The matrix of documented failure cases and their neighbours in debug and release, plus a sampled cross-section of every other "
               "driver in release, validated by TLC: outcome = panic exactly when Fails, checked_* = None exactly then and never a panic, every "
-              "recording shard terminates (a crash or time-out becomes a rejected `crashed` event)."),
+              "recording shard terminates (a crash or time-out becomes a rejected `crashed` event). NumMachine (the library as a register machine over TLC integers) supplies behaviours to execute on the code: random walks from TLC simulation and every single step from every small register file (exhaustive), compared register by register after each step."),
     "C15": _t("The extracted asm! programs are model-checked for memory safety (every load/store inside its array, stores only to lhs, rhs "
               "untouched) for every memory content of the scaled instance; add/sub, text, sampling and division drivers run under a guard-page "
               "allocator with operands that exactly fill their allocation (out-of-bounds access = SIGSEGV = rejected trace), borrowed operands "
@@ -281,11 +281,11 @@ NOT_APPLICABLE = {}
 import c16 as _c16  # noqa: E402
 import asmx as _asmx  # noqa: E402
 PROPS["C16"]["custom"] = _c16.run
-PROPS["C01"]["custom"] = _asmx.run
 PROPS["C15"]["custom"] = _asmx.run
 import rbind as _rbind  # noqa: E402
-PROPS["C09"]["custom"] = _rbind.iter_step
-for _p in ("C04", "C19", "C03", "C07", "C13"):
+PROPS["C01"]["custom"] = _rbind.chain(_asmx.run, _rbind.machine_step)
+PROPS["C09"]["custom"] = _rbind.chain(_rbind.iter_step, _rbind.machine_step)
+for _p in ("C04", "C19", "C03", "C07", "C13", "C02", "C05", "C06", "C08", "C11", "C12", "C14"):
     PROPS[_p]["custom"] = _rbind.machine_step
 PROPS["C10"]["custom"] = _rbind.chain(_asmx.forms_step, _rbind.machine_step)
 import costdrift as _costdrift  # noqa: E402
